@@ -218,6 +218,9 @@ class ForcePlatformsCalibrationDataBlock(Block):
         Replaces the current list of platforms with the one provided. The
         input is a list of tuples containing the channel and the platform.
         """
+        # the iterable may read this block's own pairs lazily (e.g. the block
+        # itself): take its items before the lists are reset
+        channel_plats = list(channel_plats)
         self._platformMap = []
         self._platforms = []
         for channel, plat in channel_plats:
